@@ -35,10 +35,12 @@ N_ROWS = 48
 def op_strategy():
     integ = st.fixed_dictionaries({'op': st.just('integrate'),
                                    'kind': st.sampled_from(['zero', 'one', 'cap-1', 'cap', 'cap+1', 'cap+1', 'rand', 'rand']),
-                                   'k': st.integers(0, 12), 'scribble': st.sampled_from([False, False, True])})
+                                   'k': st.integers(0, 12), 'scribble': st.sampled_from([False, False, True]),
+                                   'layout': st.sampled_from([0, 0, 0, 1, 2])})      # 1: columns reversed, 2: an extra leading column
     pred = st.fixed_dictionaries({'op': st.just('predict'),
                                   'scale': st.sampled_from([1.0, 1.0, 0.5, 0.25, 0.0, 0.999]),
-                                  'scribble': st.sampled_from([False, False, True])})
+                                  'scribble': st.sampled_from([False, False, True]),
+                                  'layout': st.sampled_from([0, 0, 0, 1, 2])})
     return st.one_of(integ, integ, integ, pred, pred, st.fixed_dictionaries({'op': st.just('get_pva'), 'scribble': st.booleans()}), st.just({'op': 'get_time'}),
                      st.fixed_dictionaries({'op': st.just('set_pva'), 'pva': gen.pva_strategy(),
                                             'permute': st.booleans(),
@@ -110,6 +112,16 @@ class Machine:
             if name == 'integrate':
                 k = self.n_for(op)
                 chunk = self.table.iloc[self.pos:self.pos + k]
+                # increments are addressed by column label: the same rows with the columns in another order, or behind an
+                # unrelated leading column, are the same increments - whatever layout earlier calls used
+                lay = op.get('layout', 0)
+                if lay == 1:
+                    chunk = chunk[list(chunk.columns[::-1])]
+                    self.flags.add('column_layout_changes')
+                elif lay == 2:
+                    chunk = chunk.copy()
+                    chunk.insert(0, 'temperature', 21.5)
+                    self.flags.add('column_layout_changes')
                 snap = chunk.copy()
                 size_before = len(self.integ.trajectory)
                 ret = ctx.sut(self.integ.integrate, chunk)
@@ -143,6 +155,11 @@ class Machine:
                     row.name = self.integ.get_time() + row['dt']
                 else:
                     self.last_pred_row = self.pos
+                lay = op.get('layout', 0)
+                if lay == 1:
+                    row = row.iloc[::-1]
+                elif lay == 2:
+                    row = pd.concat([pd.Series({'temperature': 21.5}), row]).rename(row.name)
                 snap = row.copy()
                 before = self.snapshot()
                 ret = ctx.sut(self.integ.predict, row)
@@ -277,7 +294,7 @@ class ModelMachine(Machine):
 
     def on_integrate(self, chunk, ret):
         n_before = len(self.model_trajectory())
-        self.segments[-1][1].append(chunk.copy())
+        self.segments[-1][1].append(chunk[gen.INC_COLS].copy())          # the model always sees the canonical layout
         self.compare('integrate')
         mt = self.model_trajectory()
         exp = mt.iloc[n_before - 1:]
@@ -286,7 +303,7 @@ class ModelMachine(Machine):
                        'integrate_return_value', lambda: f'returned index {list(ret.index)} expected {list(exp.index)}')
 
     def on_predict(self, row, ret):
-        frame = row.to_frame().transpose()
+        frame = row[gen.INC_COLS].to_frame().transpose()
         exp = self.model_segment(extra=frame).iloc[-1]
         self.ctx.check(isinstance(ret, pd.Series) and list(ret.index) == gen.TRAJ_COLS, 'predict_schema', str(type(ret)))
         self.ctx.check(bits_equal(ret.values, exp.values), 'predict_value',
